@@ -41,6 +41,9 @@ type c14Case struct {
 	MapDev  int         `json:"mapDeviations,omitempty"` // >0: at most this many map ranges per execution leave the sorted order
 	Choices []vrt.Point `json:"choices,omitempty"`
 	Leaf    bool        `json:"leaf,omitempty"`
+	// Warm (refrel): reference and sequence are rows of one sequence set that first held both rows
+	// reversed, answered the same two queries in that state and was edited in place into the case's rows
+	Warm bool `json:"warm,omitempty"`
 }
 
 func (cs c14Case) String() string {
@@ -1485,7 +1488,37 @@ func c14RunRefRel(c *mc.Ctx, cs c14Case) {
 			panic(err)
 		}
 		sq, _ := sb.Sequence(0)
-		rs := align.NewSequence("ref", []uint8(ref), "")
+		var rs align.Sequence = align.NewSequence("ref", []uint8(ref), "")
+		if cs.Warm && len(ref) == len(s) && len(s) > 0 {
+			rev := func(x string) string {
+				b := []byte(x)
+				for i, j := 0, len(b)-1; i < j; i, j = i+1, j-1 {
+					b[i], b[j] = b[j], b[i]
+				}
+				return string(b)
+			}
+			wb, err := mkSeqBag(cs.Alpha, rows{{"ref", rev(ref)}, {"a", rev(s)}})
+			if err != nil {
+				panic(err)
+			}
+			rs, _ = wb.Sequence(0)
+			sq, _ = wb.Sequence(1)
+			if pn, msg := mc.Guard(func() {
+				sq.NumMutationsComparedToReferenceSequence(cs.Alpha, rs)
+				sq.ListMutationsComparedToReferenceSequence(cs.Alpha, rs, false)
+				rs.NumMutationsComparedToReferenceSequence(cs.Alpha, sq)
+				for j := 0; j < len(s); j++ {
+					if e := wb.SetSequenceChar(0, j, ref[j]); e != nil {
+						panic(e)
+					}
+					if e := wb.SetSequenceChar(1, j, s[j]); e != nil {
+						panic(e)
+					}
+				}
+			}); pn {
+				r.Panics = append(r.Panics, "warm-up|"+msg)
+			}
+		}
 		for pass := 0; pass < 2; pass++ {
 			var num int
 			var lst []align.Mutation
@@ -1828,6 +1861,9 @@ func c14Tasks(tier string) []mc.Task {
 				case "ref":
 					forEachStringLen(sh.chars, total, prefix, func(s []byte) bool {
 						c14Run(c, c14Case{Op: "refrel", Alpha: sh.alpha, Ref: string(s[:sh.L]), Seqs: []string{string(s[sh.L:])}})
+						if sh.L <= 3 {
+							c14Run(c, c14Case{Op: "refrel", Alpha: sh.alpha, Ref: string(s[:sh.L]), Seqs: []string{string(s[sh.L:])}, Warm: true})
+						}
 						return !c.Expired()
 					})
 				case "reflen":
